@@ -340,6 +340,12 @@ class Ctx:
         return quick if self.tier == "quick" else thorough
 
     def violation(self, kind: str, what: str, case=None, **extra):
+        if kind in ("oracle", "correspondence") and self.findings:
+            from harness import findings as _f
+            fid = _f.classify(self, case, what, extra.get("observed"))
+            if fid is not None and kind == "oracle":
+                self.known(fid)
+                return
         self.violations.append({"kind": kind, "what": what, "case": case, **extra})
 
     def known(self, finding_id: str):
